@@ -636,6 +636,51 @@ class _InlineDelegates(ast.NodeTransformer):
         return node
 
 
+class _PositionalCalls(ast.NodeTransformer):
+    """`self._m(b=y, a=x)` / `_f(a=x)` -> positional arguments in the callee's parameter order, when the callee is a *private*
+    method of the same class / private function of the same module with plain positional parameters and the keywords fill a prefix
+    of them without gaps.  Call syntax only; evaluation order of the argument expressions is kept only when the
+    keywords are already in parameter order (otherwise the call is left alone)."""
+
+    def __init__(self, tree):
+        self.mod_funcs = {st.name: st for st in getattr(tree, "body", []) if isinstance(st, ast.FunctionDef)}
+        self.cls_stack = []
+
+    def visit_ClassDef(self, node):
+        self.cls_stack.append({st.name: st for st in node.body if isinstance(st, ast.FunctionDef)})
+        self.generic_visit(node)
+        self.cls_stack.pop()
+        return node
+
+    def visit_Call(self, node):
+        self.generic_visit(node)
+        if not node.keywords or any(k.arg is None for k in node.keywords) or any(isinstance(a, ast.Starred) for a in node.args):
+            return node
+        callee, skip = None, 0
+        f = node.func
+        if isinstance(f, ast.Attribute) and isinstance(f.value, ast.Name) and f.value.id in ("self", "cls") and self.cls_stack and f.attr in self.cls_stack[-1] \
+                and f.attr.startswith("_") and not f.attr.endswith("__"):
+            callee = self.cls_stack[-1][f.attr]
+            is_static = any((isinstance(d, ast.Name) and d.id == "staticmethod") for d in callee.decorator_list)
+            skip = 0 if is_static else 1
+        elif isinstance(f, ast.Name) and f.id in self.mod_funcs and f.id.startswith("_"):
+            callee = self.mod_funcs[f.id]
+        if callee is None or callee.args.vararg or callee.args.kwarg or callee.args.posonlyargs:
+            return node
+        params = [a.arg for a in callee.args.args][skip:]
+        n_pos = len(node.args)
+        kw = {k.arg: k.value for k in node.keywords}
+        if any(k not in params for k in kw):
+            return node  # keyword-only parameter etc.
+        order = [k.arg for k in node.keywords]
+        want = params[n_pos:n_pos + len(order)]
+        if order != want:
+            return node  # gaps, or a different order of evaluation
+        node.args = list(node.args) + [kw[k] for k in want]
+        node.keywords = []
+        return node
+
+
 class _SpliceGuardHelpers(ast.NodeTransformer):
     """`def f(self, ..): return self._a(args) and self._b(args)` where `_a` is a guard-style method of the same class
     (its only `return True` is its last statement; every other exit is `return False` or a raise) is the body of `_a`
@@ -817,6 +862,7 @@ def _alpha_normalise(tree: ast.AST, relpath: str, digest: str | None = None) -> 
 
 def canonicalise(tree: ast.AST) -> ast.AST:
     mfuncs = {st.name: st for st in getattr(tree, "body", []) if isinstance(st, ast.FunctionDef)}
+    tree = _PositionalCalls(tree).visit(tree)
     tree = _InlineDelegates(mfuncs).visit(tree)
     sp = _SpliceGuardHelpers()
     tree = sp.visit(tree)
